@@ -184,7 +184,10 @@ def examine(prop, case, ctx, fail, modes=("eps", "round")):
 
     with Monitors() as mon:
         try:
-            prop.check(case, ctx)
+            from .engine import _Watchdog
+
+            with _Watchdog("witness re-run"):
+                prop.check(case, ctx)
             again = None
         except Fail as f:
             again = f
